@@ -6,6 +6,8 @@ import (
 	"go/types"
 	"strings"
 
+	"golang.org/x/tools/go/ssa"
+
 	"zverif/checker/an"
 )
 
@@ -233,6 +235,7 @@ func c03(p *an.Prog, r *an.R, tier string) {
 			return true
 		})
 	})
+	c03Reset(p, r)
 	r.Floor("C03.R1.file-name-matches", 2, nFile)
 	r.Floor("C03.R2.line-matches", 1, nLine)
 	r.Floor("C03.R3.chunk-matches", 1, nChunk)
@@ -244,4 +247,102 @@ func exprStr(e ast.Expr) string {
 		return "<absent>"
 	}
 	return types.ExprString(e)
+}
+
+// c03Reset: the content provider is reused for every document of a shard;
+// whatever one of its methods caches in a field must be reset by setDocument.
+func c03Reset(p *an.Prog, r *an.R) {
+	r.Rule("C03.R5", "fields(contentProvider) stored by any function other than setDocument \\ {scratch buffers, sticky error} ⊆ fields stored by setDocument: no per-document cache (line table, sections, content, look-up hints) survives into the next document")
+	cpT := p.Named("index", "contentProvider")
+	setDoc := p.SSAFunc(p.Func("index", "(*contentProvider).setDocument"))
+	idx := p.Pkg("index")
+	if !r.Anchor(cpT != nil && setDoc != nil && idx != nil, "index.contentProvider / setDocument") {
+		return
+	}
+	fields := an.StructFields(cpT)
+	storesOf := func(f *ssa.Function) map[string]bool {
+		out := map[string]bool{}
+		// a field whose address is handed on (stored elsewhere, passed to a call) can be written through that pointer
+		an.Instrs(f, func(b *ssa.BasicBlock, in ssa.Instruction) {
+			fa, ok := in.(*ssa.FieldAddr)
+			if !ok || an.NamedOf(fa.X.Type()) != cpT {
+				return
+			}
+			if _, fresh := fa.X.(*ssa.Alloc); fresh {
+				return
+			}
+			if fa.Referrers() == nil {
+				return
+			}
+			for _, ref := range *fa.Referrers() {
+				switch x := ref.(type) {
+				case *ssa.UnOp, *ssa.FieldAddr, *ssa.IndexAddr, *ssa.DebugRef:
+				case *ssa.Store:
+					if x.Addr != ssa.Value(fa) {
+						out[fields[fa.Field].Name()] = true // the address itself is stored somewhere
+					}
+				default:
+					out[fields[fa.Field].Name()] = true
+				}
+			}
+		})
+		an.Instrs(f, func(b *ssa.BasicBlock, in ssa.Instruction) {
+			st, ok := in.(*ssa.Store)
+			if !ok {
+				return
+			}
+			// direct field store, or a store into a struct-typed field's sub-field
+			addr := st.Addr
+			for {
+				fa, ok := addr.(*ssa.FieldAddr)
+				if !ok {
+					return
+				}
+				if an.NamedOf(fa.X.Type()) == cpT {
+					if _, fresh := fa.X.(*ssa.Alloc); fresh {
+						return // construction of a new provider, not a per-document cache
+					}
+					out[fields[fa.Field].Name()] = true
+					return
+				}
+				addr = fa.X
+			}
+		})
+		return out
+	}
+	reset := storesOf(setDoc)
+	exceptions := map[string]string{
+		"_nlBuf":   "scratch buffer handed to readNewlines as capacity only; the line table itself (_nl) is reset",
+		"_sectBuf": "scratch buffer handed to readDocSections as capacity only; the sections themselves (_sects) are reset",
+		"err":      "sticky read error of the provider, never used to answer a question about a document",
+	}
+	written := map[string][]string{}
+	for _, f := range p.SSAFuncs() {
+		if f.Pkg == nil || f.Pkg.Pkg != idx.Types || f == setDoc {
+			continue
+		}
+		if strings.HasSuffix(p.Fset.Position(f.Pos()).Filename, "_test.go") {
+			continue
+		}
+		for name := range storesOf(f) {
+			written[name] = append(written[name], an.SSAName(f))
+		}
+	}
+	n := 0
+	for _, fld := range fields {
+		who := written[fld.Name()]
+		if len(who) == 0 {
+			continue
+		}
+		n++
+		key := "index.contentProvider." + fld.Name() + "/reset-per-document"
+		if why, ok := exceptions[fld.Name()]; ok {
+			r.OK("C03.R5", key, fld.Pos(), "exception: "+why)
+			r.Except("contentProvider."+fld.Name(), why)
+			continue
+		}
+		r.Fn(who[0])
+		r.Check(reset[fld.Name()], "C03.R5", key, fld.Pos(), "written by "+who[0]+" and reset by setDocument", "contentProvider."+fld.Name()+" is written by "+strings.Join(who, ", ")+" but not reset by setDocument: what was cached for one document is used to answer questions about the next (wrong line numbers, offsets or text)")
+	}
+	r.Floor("C03.R5.cached-fields", 4, n)
 }
